@@ -1017,4 +1017,3 @@ func ruleD1Dep(r *core.Run) {
 	}
 	r.Discharge("D1-dep", "D1-dep|scope", "", fmt.Sprintf("%d module functions scanned; %d stores to DidDocumentMetadata.NextUpdate/Updated (the inputs of the only wall-clock comparison in the DID library's verification path)", n, bad))
 }
-
